@@ -94,3 +94,11 @@ package model
 // diagnostic name of a node (used in error messages only): ASSUMED effect-free and panic-free
 //@ extern func (node *GoValueNode) IdentifiedAs() (s)
 //@   nopanic
+
+// ---- JSON fact loader (C20): decoding is opaque (T-JSON); wrapping the decoded value does not panic ----
+//@ func NewJSONValueNode(JSONString, identifiedAs) (vn, err)
+//@   serves C20
+//@   opt alloc=1
+//@   nopanic
+//@   modifies alloc, fresh JSONValueNode.*
+//@   ensures err != nil ==> vn == nil
